@@ -128,6 +128,16 @@ let () =
            | RExtr None -> Buffer.add_string b "#-"
            | RExtr (Some (st, out)) -> Buffer.add_string b (Printf.sprintf "#X %d %s" (int_of_n st) (hex_of_bytes out))) res;
          print_endline (Buffer.contents b)
+     | "kwaj", [hex] ->
+         let ((e, h), x) = kwaj_session (bytes_of_hex hex) in
+         (match h with
+          | None -> Printf.printf "E%d\n" (int_of_n e)
+          | Some k ->
+            let nm = (match k.k_name with None -> "-" | Some [] -> "e" | Some l -> hex_of_bytes l) in
+            let ex = (match k.k_extra with None -> "-" | Some l -> hex_of_bytes l) in
+            let exl = (match k.k_extra with None -> 0 | Some l -> List.length l) in
+            Printf.printf "H%d %d %d %d %s %d %s" (int_of_n k.k_comp) (int_of_n k.k_dataoff) (int_of_n k.k_headers) (int_of_n k.k_length) nm exl ex;
+            (match x with None -> print_newline () | Some (st, out) -> Printf.printf "#X %d %s\n" (int_of_n st) (hex_of_bytes out)))
      | "lzss", [mode; hex] -> Printf.printf "0 %s\n" (hex_of_bytes (lzss_spec (n_of_int (int_of_string mode)) (bytes_of_hex hex)))
      | _ -> print_endline "?");
     flush stdout
